@@ -941,6 +941,26 @@ func runC02(c *Ctx, _ []string) {
 				judge("swap", bad, fmt.Sprintf("frame at bit %d", f.FrameBit), nil)
 			}
 		}
+		// the stored checksum replaced by a special value (all zeros, all ones, one), together with a flip in the coded data
+		if ci.Checksum > 0 {
+			for k := 0; k < 3*len(ci.Frames) && k < 24; k++ {
+				f := ci.Frames[k%len(ci.Frames)]
+				dataBits := f.PayloadLen - (f.DataBit - f.PayloadBit)
+				if dataBits < 8 || f.DataBit-ci.Checksum < f.PayloadBit {
+					continue
+				}
+				bad := append([]byte{}, stream...)
+				for j := 0; j < ci.Checksum; j++ {
+					bit := f.DataBit - ci.Checksum + j
+					want := []bool{false, true, j == ci.Checksum-1}[(k/len(ci.Frames))%3]
+					if (bad[bit/8]>>(7-uint(bit%8)))&1 == 1 != want {
+						flipBit(bad, bit)
+					}
+				}
+				flipBit(bad, f.DataBit+r.Intn(dataBits))
+				judge("checksum-field", bad, fmt.Sprintf("frame at bit %d, stored checksum forced to %s", f.FrameBit, []string{"0", "all ones", "1"}[(k/len(ci.Frames))%3]), nil)
+			}
+		}
 		// damage inside the pipeline (after entropy decoding / after the inverse transforms)
 		for k := 0; k < 12; k++ {
 			stageNo := k % 2
